@@ -50,6 +50,11 @@ def jobs(tier):
                 "upfront": True})
     add("mgm2", "pair", [1, 2])
     add("mgm2", "pair", [1, 2], "max")
+    # MGM2 on a chain where only a coordinated move helps (tables pinned), every FIFO interleaving of the deliveries to the
+    # hub y (the other computations on their canonical order), random draws free
+    coord = {"c0_00": 10, "c0_01": 10, "c0_10": 10, "c0_11": 0, "c1_00": 0, "c1_01": 1, "c1_10": 1, "c1_11": 0}
+    out.append({"name": "mgm2-chain3-coord-hubsched-k2", "algo": "mgm2", "spec": spec("chain3", "min", pins=coord), "ks": [2],
+                "upfront": True, "free_targets": ["y"], "max_steps": 200})
     if tier == "thorough":
         for algo in ("mgm", "dsa"):
             add(algo, "chain3", [3], fixed=True, upfront=True)
